@@ -187,7 +187,7 @@ class C13(Check):
     level_text = ('Seeded search over server behaviours x response kinds x wrapper stacks with a protocol monitor; the '
                   'route-kind x method x consumption x file-wrapper grid is swept once per run for a sampled wrapper stack.')
     level_note = 'Trusted: wsgiref.validate as the reading of PEP 3333; the monitor in sim/core/gateway.py.'
-    required_probes = ('range-request-on-static-file', 'wrapper-object-falsy-at-construction', 'filesystem-error-after-the-file-was-opened', 'big-file-without-extension-served', 'reroute-target-with-other-parameter-names', 'wrapper-passes-copy-of-environ', 'wrapper-decorates-start-response', 'empty-file-through-server-file-wrapper', 'reroute-to-wrapped-application', 'conditional-static-304', 'reroute-through-rewritten-path', 'first-requests-concurrent', 'file-released-after-abort', 'file-released-without-iteration', 'head-no-body', 'reroute-same-environ',
+    required_probes = ('environ-without-optional-keys', 'query-string-of-raw-bytes', 'range-request-on-static-file', 'wrapper-object-falsy-at-construction', 'filesystem-error-after-the-file-was-opened', 'big-file-without-extension-served', 'reroute-target-with-other-parameter-names', 'wrapper-passes-copy-of-environ', 'wrapper-decorates-start-response', 'empty-file-through-server-file-wrapper', 'reroute-to-wrapped-application', 'conditional-static-304', 'reroute-through-rewritten-path', 'first-requests-concurrent', 'file-released-after-abort', 'file-released-without-iteration', 'head-no-body', 'reroute-same-environ',
                        'custom-file-wrapper-used', 'debug-500', 'gzip-applied')
 
     def generate(self, seed, tier):
@@ -246,6 +246,9 @@ class C13(Check):
             import errno
             fs = [{'call': rng.randint(1, 8), 'kind': 'oserror', 'errno': rng.choice([errno.ENOENT, errno.ENOENT, errno.EACCES, errno.EIO, errno.ESTALE])}]
         return {'route': route, 'method': method, 'headers': rng.choice(HEADER_SETS), 'fs_faults': fs,
+                # what the server puts into the environ: everything / only what PEP 3333 requires; a query string of raw
+                # (non-UTF-8) bytes as some clients send them
+                'lean_environ': rng.random() < 0.25, 'raw_query': rng.choice([None, None, None, 'name=caf\xe9', 'x=\xff\xfe&y=1', 'ok=1&z=%E9']),
                 'consume': rng.choice(['drain', 'drain', 'abort', 'noiter']), 'abort_after': rng.choice([0, 1, 2]),
                 'fw': rng.choice([None, None, 'wsgiref', 'sim'])}
 
@@ -395,6 +398,17 @@ class C13(Check):
             fw = SimFileWrapper
         env = make_environ(op['method'], PATH[op['route']], headers=op['headers'], file_wrapper=fw,
                            body=b'x=1' if op['method'] == 'POST' else b'')
+        if op.get('raw_query'):
+            env['QUERY_STRING'] = op['raw_query']
+            res.probe('query-string-of-raw-bytes')
+        if op.get('lean_environ'):
+            for k in ('QUERY_STRING',):       # (wsgiref's validator itself cannot do without SCRIPT_NAME)
+                if not env.get(k):
+                    env.pop(k, None)
+            if op['method'] != 'POST':
+                env.pop('CONTENT_TYPE', None)
+                env.pop('CONTENT_LENGTH', None)
+            res.probe('environ-without-optional-keys')
         snap = {}
         seen_env = []
 
